@@ -11,6 +11,7 @@ package main
 // say "this decision does not consult that table".
 
 import (
+	"go/types"
 	"sort"
 	"strconv"
 	"strings"
@@ -83,6 +84,115 @@ func (e *Engine) readersObligations(prop string) []*Obligation {
 			desc += "; but also in " + strings.Join(bl, ", ")
 		}
 		ob := &Obligation{Name: name, Kind: "frame", Func: rc.Global, Goal: goal, Desc: desc, Claimed: true, Tags: rc.Tags}
+		sc.oblige(ob)
+		out = append(out, ob)
+	}
+	_ = prop
+	return out
+}
+
+// Field write restriction:
+//
+//   //@ writers[Cxx] <pkg.Type.Field> <func>,<func>,...
+//
+// every store to that field of that struct type (and every use of the field's address other than
+// a load) lies inside one of the listed functions.  Whole-struct copies are not writes of the
+// field.  One obligation per clause (`<pkg.Type.Field>/frame:writers#<i>`).
+type WritersClause struct {
+	Tags  []string
+	Field string
+	Funcs []string
+}
+
+func (e *Engine) writersObligations(prop string) []*Obligation {
+	var out []*Obligation
+	sc := newScript()
+	for i, wc := range e.writers {
+		parts := strings.Split(wc.Field, ".")
+		name := wc.Field + "/frame:writers#" + strconv.Itoa(i)
+		fail := func(msg string) {
+			ob := &Obligation{Name: name, Kind: "frame", Func: wc.Field, Goal: "false", Desc: msg, Claimed: true, Tags: wc.Tags}
+			sc.oblige(ob)
+			out = append(out, ob)
+		}
+		if len(parts) != 3 {
+			fail("writers clause needs <pkg>.<Type>.<Field>")
+			continue
+		}
+		t := e.typeByString(parts[0] + "." + parts[1])
+		if t == nil {
+			fail("writers clause names an unknown type " + parts[0] + "." + parts[1])
+			continue
+		}
+		st, ok := t.Underlying().(*types.Struct)
+		fidx := -1
+		if ok {
+			for k := 0; k < st.NumFields(); k++ {
+				if st.Field(k).Name() == parts[2] {
+					fidx = k
+				}
+			}
+		}
+		if fidx < 0 {
+			fail("writers clause names an unknown field " + wc.Field)
+			continue
+		}
+		allowed := map[string]bool{}
+		for _, f := range wc.Funcs {
+			allowed[f] = true
+		}
+		bad := map[string]bool{}
+		for _, fn := range e.allFuncs {
+			if fn.Blocks == nil || !e.inModule(fn) {
+				continue
+			}
+			top := fn
+			for top.Parent() != nil {
+				top = top.Parent()
+			}
+			if allowed[top.String()] {
+				continue
+			}
+			for _, b := range fn.Blocks {
+				for _, ins := range b.Instrs {
+					fa, ok := ins.(*ssa.FieldAddr)
+					if !ok || fa.Field != fidx {
+						continue
+					}
+					pt, ok := fa.X.Type().Underlying().(*types.Pointer)
+					if !ok || !types.Identical(pt.Elem(), t) {
+						continue
+					}
+					for _, r := range *fa.Referrers() {
+						switch u := r.(type) {
+						case *ssa.UnOp:
+							// load
+						case *ssa.DebugRef:
+						case *ssa.Store:
+							if u.Addr == ssa.Value(fa) {
+								bad[top.String()+" (store)"] = true
+							} else {
+								bad[top.String()+" (address stored)"] = true
+							}
+						default:
+							bad[top.String()+" (address used)"] = true
+						}
+					}
+				}
+			}
+		}
+		goal := "true"
+		desc := wc.Field + " is written only in " + strings.Join(wc.Funcs, ", ")
+		if len(bad) > 0 {
+			var bl []string
+			for b := range bad {
+				bl = append(bl, b)
+			}
+			sort.Strings(bl)
+			goal = "false"
+			desc += "; but also in " + strings.Join(bl, ", ")
+		}
+		ob := &Obligation{Name: name, Kind: "frame", Func: wc.Field, Goal: goal, Desc: desc, Claimed: true, Tags: wc.Tags}
 		sc.oblige(ob)
 		out = append(out, ob)
 	}
